@@ -34,7 +34,7 @@ class TmpDir:
     _n = 0
 
     def __enter__(self) -> str:
-        base = tempfile.gettempdir()
+        base = "/dev/shm" if os.access("/dev/shm", os.W_OK) else tempfile.gettempdir()  # tmpfs: 5 ms vs 70 ms per DB
         while True:
             TmpDir._n += 1
             d = os.path.join(base, "verif-st-%d-%d" % (os.getpid(), TmpDir._n))
@@ -84,9 +84,19 @@ def env_term(kind: int) -> EventEnvelopeWithMetadata:
     return pick(_ENV_TERM, kind)
 
 
+def freeze(v: Any) -> Any:
+    """JSON-ish value -> hashable/comparable tuple tree.  (No repr(): CrossHair may short-circuit its repr patch into an
+    uninterpreted symbolic str.)"""
+    if isinstance(v, dict):
+        return ("d",) + tuple((k, freeze(v[k])) for k in sorted(v))
+    if isinstance(v, (list, tuple)):
+        return ("l",) + tuple(freeze(x) for x in v)
+    return v
+
+
 def ev_key(e: Any) -> tuple:
     """Observation of a StoredEvent that is backend independent (timestamps differ by construction)."""
-    return (e.run_id, e.sequence, e.event.type, tuple(e.event.types or ()), tuple(sorted((k, repr(v)) for k, v in e.event.value.items())))
+    return (e.run_id, e.sequence, e.event.type, tuple(e.event.types or ()), e.event.qualified_name, freeze(e.event.value))
 
 
 # ------------------------------------------------------------------------------------------------ handlers
@@ -98,7 +108,7 @@ STATUSES = ["running", "completed", "failed", "cancelled"]
 
 def handler_key(h: PersistentHandler) -> tuple:
     return (h.handler_id, h.workflow_name, h.status, h.run_id, h.error, h.idle_since is not None,
-            None if h.result is None else repr(h.result.result))
+            None if h.result is None else (type(h.result).__name__, freeze(h.result.result)))
 
 
 def hq(hid: Optional[List[str]] = None, rid: Optional[List[str]] = None, wf: Optional[List[str]] = None,
